@@ -28,6 +28,41 @@
 #include <time.h>
 
 typedef std::vector<unsigned char> bytes;
+// ---- allocation-failure injection (WV_FAIL_ALLOC=k in the child's environment): the k-th allocation made through operator new
+// while armed (= inside the library call of dec / ver) fails: std::bad_alloc, or NULL for the nothrow forms.  Not under sanitizers.
+#if !defined(__SANITIZE_ADDRESS__) && !defined(__SANITIZE_THREAD__) && !defined(WENCRY_VERIF_SHIM_H)
+#include <new>
+static volatile long wv_alloc_fail_at = 0, wv_alloc_count = 0;
+static volatile bool wv_alloc_armed = false;
+static inline bool wv_alloc_fails()
+{
+  return wv_alloc_armed && wv_alloc_fail_at > 0 && __sync_add_and_fetch(&wv_alloc_count, 1) == wv_alloc_fail_at;
+}
+void *operator new(size_t n)
+{
+  if (wv_alloc_fails())
+    throw std::bad_alloc();
+  void *p = malloc(n ? n : 1);
+  if (!p)
+    throw std::bad_alloc();
+  return p;
+}
+void *operator new[](size_t n) { return operator new(n); }
+void *operator new(size_t n, const std::nothrow_t &) noexcept { return wv_alloc_fails() ? NULL : malloc(n ? n : 1); }
+void *operator new[](size_t n, const std::nothrow_t &) noexcept { return wv_alloc_fails() ? NULL : malloc(n ? n : 1); }
+void operator delete(void *p) noexcept { free(p); }
+void operator delete[](void *p) noexcept { free(p); }
+void operator delete(void *p, size_t) noexcept { free(p); }
+void operator delete[](void *p, size_t) noexcept { free(p); }
+static void wv_alloc_arm(bool on)
+{
+  if (on && getenv("WV_FAIL_ALLOC"))
+    wv_alloc_fail_at = atol(getenv("WV_FAIL_ALLOC"));
+  wv_alloc_armed = on;
+}
+#else
+static void wv_alloc_arm(bool) {}
+#endif
 static FILE *res = NULL;
 static std::string scratch = "/tmp";
 static int op_timeout_ms = 5000;
@@ -301,8 +336,11 @@ static std::string op_decver(const std::vector<std::string> &a, bool dec)
   cap_begin();
   {
     Settings st(-1, -1, false);
-    runcrypt rc(fin, fo, place_key(key), st, (u8_t)T);
+    u8_t *kp = place_key(key);
+    wv_alloc_arm(true);
+    runcrypt rc(fin, fo, kp, st, (u8_t)T);
     r = dec ? rc.execute_decrypt(file.size()) : rc.execute_verify(file.size());
+    wv_alloc_arm(false);
   }
   int code = result_code(cap_end());
   bytes after = read_file(inpath);
